@@ -120,11 +120,10 @@ def clen(t, depth=0):
         if src.tag == 'adapt' and src[1] in ('split_at', 'split_at_mut', 'split_at_checked', 'split_at_mut_checked') and len(src.args) >= 3:
             n = ival(src[3], depth + 1)
             return n if t[1] == '0' else padd(clen(src[2], depth + 1), n, -1)
-    if k == 'elemat' and _strip(t[2]).tag == 'range':
-        r = _strip(t[2])
-        lo = ival(r[1], depth + 1)
-        hi = clen(t[1], depth + 1) if (r[2].tag == 'const' and r[2][1] is None) else ival(r[2], depth + 1)
-        return padd(hi, lo, -1)
+    if k == 'elemat':
+        rb = range_bounds(t[2], t[1], depth + 1)
+        if rb is not None:
+            return padd(rb[1], rb[0], -1)
     if k == 'call':
         m = re.search(r'<impl (u|i)(8|16|32|64|128)>::to_(le|be|ne)_bytes$', t[1])
         if m:
@@ -134,6 +133,66 @@ def clen(t, depth=0):
     if k in ('param', 'field', 'elem', 'elemat', 'upvar', 'call'):
         return atom('len(%s)' % canon(t))
     raise NoLen('collection ' + k)
+
+
+def range_bounds(r, base, depth=0):
+    """(lo, hi) polynomials of the half-open index range a range term selects from `base`, or None when `r` is not a range"""
+    r = _strip(r)
+    if r.tag == 'range':
+        lo = ival(r[1], depth + 1)
+        hi = clen(base, depth + 1) if (r[2].tag == 'const' and r[2][1] is None) else ival(r[2], depth + 1)
+        return lo, hi
+    if r.tag == 'adt' and r[2]:
+        nm = r[1].split('::')[-1]
+        f = {k_: v for k_, v in r[2]}
+        if nm == 'RangeTo' and 'end' in f:
+            return const(0), ival(f['end'], depth + 1)
+        if nm == 'RangeToInclusive' and 'end' in f:
+            return const(0), padd(ival(f['end'], depth + 1), const(1))
+        if nm == 'RangeFrom' and 'start' in f:
+            return ival(f['start'], depth + 1), clen(base, depth + 1)
+        if nm == 'Range' and 'start' in f and 'end' in f:
+            return ival(f['start'], depth + 1), ival(f['end'], depth + 1)
+    if r.tag == 'adt' and r[1].endswith('RangeFull::RangeFull'):
+        return const(0), clen(base, depth + 1)
+    if r.tag == 'call' and r[1].endswith('RangeInclusive::<Idx>::new') and len(r[2]) == 2:
+        return ival(r[2][0], depth + 1), padd(ival(r[2][1], depth + 1), const(1))
+    return None
+
+
+def cvals(t, depth=0):
+    """the finite set of values an integer term can take when it is built from constants, +, -, * and phi; None otherwise"""
+    if depth > 40:
+        return None
+    t = _strip(t)
+    k = t.tag
+    if k == 'const' and isinstance(t[1], int) and not isinstance(t[1], bool):
+        return {t[1]}
+    if k == 'cast':
+        return cvals(t[2], depth + 1)
+    if k == 'phi':
+        out = set()
+        for a in t.args:
+            v = cvals(a, depth + 1)
+            if v is None:
+                return None
+            out |= v
+        return out if len(out) <= 64 else None
+    if k == 'binop' and t[1] in ('Add', 'Sub', 'Mul'):
+        a, b = cvals(t[2], depth + 1), cvals(t[3], depth + 1)
+        if a is None or b is None:
+            return None
+        out = {(x + y if t[1] == 'Add' else x - y if t[1] == 'Sub' else x * y) for x in a for y in b}
+        return out if len(out) <= 64 else None
+    if k == 'tuple' and len(t.args) == 2 and t.args[1].tag == 'opaque':
+        return cvals(t.args[0], depth + 1)
+    if k == 'field' and t[1] == '0' and _strip(t[2]).tag == 'tuple':
+        return cvals(_strip(t[2]).args[0], depth + 1)
+    return None
+
+
+def is_const(p):
+    return set(p) <= {()}
 
 
 def ge0(p):
